@@ -14,7 +14,8 @@ their character codes (`_` = empty string); a separator as its character code.
        names `<hex>,…`; values `v,…;…` per observation, v: `m/d` | `nan` | `inf` | `-inf` | `S<hex>`
   net  <sep> <h> <hdrR> <d> <posDir> <edges>     edges: `id,src,tgt,orient,x:y|x:y…;…` (ids in hex)
                                         → W:<hex> R:ok <edges> N:<nodes> | R:err:<kind>
-  wkt  <d> <pts>   pts: `x:y|x:y…`      → W:<hex> R:ok x:y:z|… | R:err:<kind>
+  wkt  <d> <pts>   pts: `x:y|x:y…` (x, y: `[-]mag`, `-0` the negative zero; the floats ±mag/10^d of any magnitude)
+                                        → W:<hex> R:ok x:y:z|… | R:err:<kind>
   gpx  <geo> <rfmt> <name> <rows>       → W:<hex> R:ok <track>|<track> | R:err:<kind>
   wktparse <hex text>                   → ok x:y:z|… | err:<kind>        (TrackReader.parseWkt on any text)
   gpxaf <geo> <rfmt> <name> <naf> <names> <rows>   the same with `af=True`: names `<hex>,…`, rows with af tokens -/
@@ -93,7 +94,7 @@ def rowOf? (naf : Nat) (s : String) : Option (Row × List AFVal) :=
 def sepOf? (s : String) : Option Char := s.toNat?.bind (fun n => if n < 128 ∧ n ≠ 10 then some (Char.ofNat n) else none)
 
 def ptOf? (s : String) : Option Pt :=
-  match (splitTok s ':').mapM String.toInt? with
+  match (splitTok s ':').mapM snum? with
   | some [x, y] => some (x, y)
   | _ => none
 
